@@ -5,6 +5,7 @@ import Driver.ErasedSet
 import Driver.Tree
 import Driver.Render
 import Driver.SourceMap
+import Driver.InlineOps
 
 def dispatch (line : String) : String :=
   match line.trimAscii.toString.splitOn " " with
@@ -14,6 +15,7 @@ def dispatch (line : String) : String :=
   | "tree" :: args => Driver.Tree.handle args
   | "render" :: args => Driver.Render.handle args
   | "smap" :: args => Driver.SourceMap.handle args
+  | "inlineops" :: args => Driver.InlineOps.handle args
   | _ => "bad-stream"
 
 partial def loop (h : IO.FS.Stream) (out : IO.FS.Stream) : IO Unit := do
